@@ -13,7 +13,7 @@ ASSUMPTIONS = [
     "n+agents (mTSP); 2*ops+1 (FJSP/JSSP); jobs*stages+(sum max durations+1)*machines+1 (FFSP); quota (FLP/MCP/DPP/MDPP); jobs (SMTWTP)",
     "policy level: AttentionModelPolicy decode loops (greedy / sampling / multistart) must call env.step at most bound(slowest row) times and never decode an all-masked row",
 ]
-REQUIRED_COUNTERS = ["episodes", "c02_step_events", "c02_batches_with_padding>=3", "c02_policy_forwards", "c02_policy_filtered_forwards"]
+REQUIRED_COUNTERS = ["episodes", "c02_step_events", "c02_batches_with_padding>=3", "c02_policy_forwards", "c02_policy_filtered_forwards", "c02_policy_default_cap_forwards"]
 MIN_NONTRIVIAL = {"quick": 300, "thorough": 5000}
 WORKERS = {"quick": 12, "thorough": 16}
 BUDGET_S = {"quick": 400, "thorough": 3000}
@@ -72,6 +72,11 @@ def cases(tier, seed):
                         # the documented filters: the k best RAW scores of a decoder may all belong to infeasible actions
                         out.append(dict(kind="policy", env=env, n=n, B=rnd.choice([1, 4, 7]), decode=dec, T=rnd.choice([1.0, 3.0]), s=rnd.randrange(10**6),
                                         filt=rnd.choice([dict(top_k=2), dict(top_k=3), dict(top_p=0.6), dict(top_k=3, top_p=0.8)])))
+    # episodes longer than a thousand steps decoded on the policy's own default safety cap (large-instance evaluation)
+    out.append(dict(kind="policy", env="tsp", n=1100, B=2, decode="greedy", s=rnd.randrange(10**6), default_cap=True))
+    if tier != "quick":
+        out.append(dict(kind="policy", env="cvrp", n=700, B=2, decode="sampling", T=1.0, s=rnd.randrange(10**6), default_cap=True))
+        out.append(dict(kind="policy", env="tsp", n=2100, B=1, decode="sampling", T=1.0, s=rnd.randrange(10**6), default_cap=True))
     return out
 
 
